@@ -1,10 +1,17 @@
 SM = ['smenable', 'smenabled', 'smresume', 'smresumed', 'smack', 'smrequest']
 def I(e, **kw):
     d = dict(name=e, entry='h_' + e, unwind=8, timeout_s=300, mem_gb=6, bound='strings <= 2 arbitrary UTF-16 units, integers full range'); d.update(kw); return d
-def CASES(e, k, **kw):
-    """one instance per combination of the k structural choices (vp_case_bool): presence of optional children, emptiness of gating strings, list lengths"""
+def CASES(e, k, quick=None, **kw):
+    """one instance per combination of the k structural choices (vp_case_bool): presence of optional children, emptiness of gating strings,
+    list lengths. `quick` = the cases that also run in the quick tier (default: all)."""
     cs = k if isinstance(k, (list, tuple)) else list(range(1 << k))
-    return [I(e, name='%s_c%d' % (e, c), cdefs={'VP_CASE': c}, bound='structural case %d (of %d); strings <= 2 arbitrary UTF-16 units, integers full range' % (c, len(cs)), **kw) for c in cs]
+    out = []
+    for c in cs:
+        tiers = ('quick', 'thorough') if (quick is None or c in quick) else ('thorough',)
+        d = dict(kw); d.setdefault('tiers', tiers)
+        if 'quick' not in d['tiers']: d.setdefault('timeout_s', 900); d.setdefault('mem_gb', 12)
+        out.append(I(e, name='%s_c%d' % (e, c), cdefs={'VP_CASE': c}, bound='structural case %d (of %d); strings <= 2 arbitrary UTF-16 units, integers full range' % (c, len(cs)), **d))
+    return out
 NCOND = 11
 FAIL_CASES = [0, 2] + [1 | (t << 1) | (v << 2) for t in (0, 1) for v in range(NCOND)]      # bit0 condition present, bit1 text non-empty, bits2.. condition value
 FAIL2_CASES = [t | (v << 1) for t in (0, 1) for v in range(NCOND)]
@@ -17,9 +24,15 @@ SPEC = dict(
              instances=[I(e, bound='whole value range of the integer type') for e in ['int_u8', 'int_i8', 'int_u16', 'int_i16', 'int_u32', 'int_i32', 'int_u64', 'int_i64', 'int_range', 'bool']]),
         dict(name='sasl', harness='h_sasl.cpp', tus=['src/base/QXmppSasl.cpp', 'src/base/QXmppStreamManagement.cpp', 'src/base/QXmppUtils.cpp', 'src/base/QXmppStanza.cpp'], models=['qt_core.c', 'qt_list.c', 'qt_dom.c'],
              instances=[I(e, unwind=10) for e in ['sasl_auth', 'sasl_challenge', 'sasl_response', 'sasl_success', 'fast_token_request', 'fast_request', 'sasl2_challenge', 'sasl2_response']]
-                       + CASES('sasl_failure', FAIL_CASES, unwind=10) + CASES('bind2_feature', 2, unwind=10) + CASES('bind2_request', 4, unwind=10) + CASES('bind2_bound', 2, unwind=10)
-                       + CASES('fast_feature', 2, unwind=10) + CASES('sasl2_failure', FAIL2_CASES, unwind=10) + CASES('sasl2_continue', 3, unwind=10) + CASES('sasl2_abort', 1, unwind=10)
-                       + CASES('sasl2_success', 5, unwind=10) + CASES('sasl2_authenticate', 7, unwind=10, tiers=('thorough',))),
+                       + CASES('sasl_failure', FAIL_CASES, quick=[0], unwind=10) + CASES('bind2_feature', 2, quick=[0], unwind=10) + CASES('bind2_request', 4, quick=[0, 2, 4], unwind=10)
+                       + CASES('bind2_bound', 2, unwind=10) + CASES('fast_feature', 2, quick=[], unwind=10) + CASES('sasl2_failure', FAIL2_CASES, quick=[0, 3, 21], unwind=10)
+                       + CASES('sasl2_continue', 3, quick=[], unwind=10) + CASES('sasl2_abort', 1, unwind=10)
+                       + CASES('sasl2_success', 5, quick=[0, 31, 5, 18], unwind=10) + CASES('sasl2_authenticate', 7, quick=[], unwind=10)),
     ],
-    bounds=[], assumptions=[], outside=[],
+    bounds=['typed scalar helpers: whole value range of each integer type', 'nonza codecs: free-text fields 0..2 arbitrary UTF-16 code units (markup metacharacters, quotes, non-ASCII and surrogates are ordinary units for the tree model), byte arrays 0..3 arbitrary bytes, integers full range, lists <= 2 entries, every combination of optional children (one cbmc instance per structural case, values symbolic)'],
+    assumptions=['QXmlStreamWriter writes into, and QDomElement reads from, the same tree model: Qt escaping/tokenising are trusted, so markup injection through Qt itself is outside; a raw device write would be flagged as unmodelled',
+                 'numbers are abstract strings (QString::number / toUInt... are inverse by contract with the range check of the target type); base64 is an abstract injective tagging',
+                 'Sasl2::Continue is assumed to carry >= 1 task (validity predicate of XEP-0388)'],
+    outside=['all payload classes not listed in the instances (messages, presences, IQ payloads, data forms, pubsub, MIX, Jingle, vCard, MAM, ...): each needs its own field table and QVariant/QUrl/QDateTime models',
+             'QDateTime-valued fields (FastToken.expiry), QUuid (UserAgent.id)', 'blank / whitespace-only strings', 'strings longer than 2 units'],
 )
